@@ -12,7 +12,11 @@ rm -f "$V/target/c07-native.json" "$V/target/c07-miri.json"
 
 # ---- engine (c)
 NDIR="$V/simnative"; NT="$V/target/native-plain"
-if [ "${VERIF_REPO:-/repo}" != /repo ]; then NDIR="$V/target/alt-manifests/simnative"; NT="$V/target/alt-native-plain"; fi
+if [ "${VERIF_REPO:-/repo}" != /repo ]; then
+  R="$VERIF_REPO"; NDIR="$V/target/alt-manifests/simnative"; NT="$V/target/alt-native-plain"; mkdir -p "$NDIR/.cargo"
+  sed -e "s#path = \"/repo\"#path = \"$R\"#" -e "s#path = \"../sim/src/main.rs\"#path = \"$V/sim/src/main.rs\"#" "$V/simnative/Cargo.toml" >"$NDIR/Cargo.toml"
+  cp "$V/simnative/Cargo.lock" "$NDIR/Cargo.lock" 2>/dev/null; printf '[net]\noffline = true\n' >"$NDIR/.cargo/config.toml"
+fi
 if [ -d "$NDIR" ] && ( cd "$NDIR" && CARGO_TARGET_DIR=$NT cargo build --release --offline >"$V/target/build-native-plain.log" 2>&1 ); then
   "$NT/release/graphsim-native" native-c07 --tier "$TIER" --seed "$SEED" --verif-dir "$V"
   worst $?
@@ -25,9 +29,9 @@ if [ "$TIER" = thorough ]; then
   N=${VERIF_MIRI_SEEDS:-32}
   mkdir -p "$V/target/miri-logs"; rm -f "$V/target/miri-logs"/*.log
   # build once, then run the seeds in parallel (each interpreter is single-threaded)
-  ( cd "$V/miri" && MIRIFLAGS="-Zmiri-permissive-provenance" cargo +nightly miri run --offline -- 0 1 >"$V/target/miri-logs/build.log" 2>&1 ) || true
+  ( cd "$V/miri" && MIRIFLAGS="-Zmiri-tree-borrows -Zmiri-ignore-leaks -Zmiri-permissive-provenance" CARGO_TARGET_DIR="$V/target/miri" cargo +nightly miri run --offline -- 0 1 >"$V/target/miri-logs/build.log" 2>&1 ) || true
   t0=$(date +%s)
-  seq 1 "$N" | xargs -P 16 -I{} sh -c 'cd /verif/miri && th=$(( {} % 3 + 2 )); MIRIFLAGS="-Zmiri-seed={} -Zmiri-preemption-rate=0.1 -Zmiri-tree-borrows -Zmiri-ignore-leaks -Zmiri-permissive-provenance" timeout 1800 cargo +nightly miri run --offline -- {} $th >/verif/target/miri-logs/{}.log 2>&1; echo "exit=$?" >>/verif/target/miri-logs/{}.log'
+  seq 1 "$N" | V="$V" xargs -P 16 -I{} sh -c 'cd "$V/miri" && th=$(( {} % 3 + 2 )); MIRIFLAGS="-Zmiri-seed={} -Zmiri-preemption-rate=0.1 -Zmiri-tree-borrows -Zmiri-ignore-leaks -Zmiri-permissive-provenance" CARGO_TARGET_DIR="$V/target/miri" timeout 2400 cargo +nightly miri run --offline -- {} $th >"$V/target/miri-logs/{}.log" 2>&1; echo "exit=$?" >>"$V/target/miri-logs/{}.log"'
   t1=$(date +%s)
   ok=$(grep -l "C07MIRI OK" "$V"/target/miri-logs/[0-9]*.log 2>/dev/null | wc -l)
   bad=""
